@@ -20,7 +20,7 @@ T = {
             "Held on the explored spaces and histories: every suggestion is checked for keys, constants, types, membership, initial-point order, repeats and exhaustion.", "§4 C06"),
     "C07": ("membership and round-trip oracle on generated domains, seeds and unit-cube points incl. corners and bin borders",
             "Held on the explored domains: samples, casts, decodings and encode/decode/JSON round trips of generated domains are checked against the domain's own definition.", "§4 C07"),
-    "C08": ("reference-model monitor: dense numpy (and mpmath-calibrated) GP vs the real posterior state on generated data",
+    "C08": ("reference-model monitor: dense numpy (and mpmath-calibrated) GP vs the real posterior state on generated data; direct probes of the jitter search on near-singular matrices",
             "Held on the explored data sets and parameters: predictions, likelihood, joint-sample covariance, jitter and incremental updates are compared with dense textbook formulas under a conditioning-scaled tolerance.", "§4 C08"),
     "C09": ("Richardson-extrapolated finite differences and closed forms vs the real gradients (incl. near-singular states that take the jitter loop, predictors kept across a re-fit); contract monitor on every AddJitterOp call",
             "Held on the explored points: gradients of the fitting criterion and of the acquisition functions are compared with extrapolated central differences (with their own error estimate); EI with its closed form.", "§4 C09"),
@@ -34,13 +34,13 @@ T = {
             "Held on the explored fault sequences: failures at enumerated points for every scheduler; no raise, failed never resumed/re-suggested, other trials' bookkeeping intact, synchronous rungs complete.", "§4 C13"),
     "C14": ("state invariant checked after every event against what the trials actually reported",
             "Held on the explored schedules: the surrogate data set and pending evaluations are compared after every event with the reports and the running set.", "§4 C14"),
-    "C15": ("paired lock-step executions (min on f vs max on -f) with round-off-band exclusion",
+    "C15": ("paired lock-step executions (min on f vs max on -f) with round-off-band exclusion (incl. model-free ZeroShotTransfer over mirrored offline tables)",
             "Held on the explored pairs: suggestions, decisions and best-configuration reporting coincide between mode min on f and mode max on -f.", "§4 C15"),
     "C16": ("continuation-equality monitor at every prefix of generated histories (dill and get_state/clone_from_state)",
             "Held on the explored histories and snapshot points: the restored object continues identically to the uninterrupted one.", "§4 C16"),
     "C17": ("row-vs-delivery and statistics oracle over real runs (incl. experiments continued at another path) and direct TuningStatus histories, CSV read back",
             "Held on the explored runs: result rows equal deliveries one-to-one, CSV read-back equals the table, best configuration and running statistics equal recomputed values.", "§4 C17"),
-    "C18": ("round-trip oracle: real Reporter writing to a real file with interleaved hostile output, parsed by the real retrieve",
+    "C18": ("round-trip oracle: real Reporter writing to a real file with interleaved hostile output, parsed by the real retrieve; plus real LocalBackend worker processes paused and resumed (delivered and parsed reports vs reported)",
             "Held on the explored scripts: retrieved reports equal the reported dictionaries in order; counters and time stamps monotone; rejected reports raise and leave the stream intact.", "§4 C18"),
     "C19": ("brute-force Pareto oracle and MOASHA reference rule on generated point sets and schedules",
             "Held on the explored point sets and schedules: pareto_efficient and nondominated_sort vs brute force; MOASHA decisions vs the documented rank rule computed from the recorded priorities.", "§4 C19"),
